@@ -1,4 +1,5 @@
 #![feature(allocator_api)]
+#![feature(pattern)]
 #![allow(unused)]
 #![allow(dead_code)]
 use vstd::prelude::*;
